@@ -40,6 +40,9 @@ def build(rnd, k):
     inits = {}
     # imports first: host func, memory, table, globals
     host = m.import_func('env', 'note', [I32, I64], [])
+    # a second host function without parameters or results: in some shapes it IS the start function (an import may be the start)
+    boot = m.import_func('env', 'boot', [], [])
+    start_is_import = has_start and k % 5 == 2
     # names of imported memories/tables/globals are passed to the embedder's resolver verbatim (they are strings, not C
     # identifiers): use spellings that the identifier mangling would change (double underscores, dots, 'X', UTF-8)
     imod = lambda: rnd.choice(['env', 'env', 'GOT.mem', 'a__b', 'X', 'h\u00f4te', 'wasi:io/x', '%100', '%s'])
@@ -169,7 +172,7 @@ def build(rnd, k):
             if t == I32:
                 body += [('global.get', gi), ('i64.const', 3), ('call', host)]
         body += [('global.get', counter), ('i32.const', 1), ('i32.add',), ('global.set', counter)]
-        m.start = m.add_func([], [], [], body)
+        m.start = boot if start_is_import else m.add_func([], [], [], body)
     return m, exports, inits, (memk, tblk, has_start, ndata, len(m.elems), len(gl)), tsize, {g[0]: g[1] for g in gl}
 
 
